@@ -12,7 +12,7 @@ from harness.c03 import ALIAS_MAPS, ALL_MAPS, EXTRA_MAPS, MAPS, MORE_MAPS, body_
 
 PROPERTY = "C12"
 BOUNDS = {
-    "quick": {"path": "'/' + <= 5 solver characters (printable ASCII without ? #; '%' stands for a percent sign sent as %25), incl. leading '//host' forms", "maps": "11 redirecting maps incl. defaults (equal and wider), alias rules (same shape and with extra defaults) and per-method rules",
+    "quick": {"path": "'/' + <= 5 solver characters (printable ASCII without ? #; '%' stands for a percent sign sent as %25), incl. leading '//host' forms", "maps": "12 redirecting maps incl. defaults (equal and wider), alias rules (same shape and with extra defaults) and per-method rules",
               "script roots": ["/", "/app", "/app/"], "schemes": ["http", "https"]},
     "thorough": {"path": "<= 7 characters"},
 }
@@ -26,7 +26,7 @@ def obligations(tier, seed):
     quick = tier == "quick"
     nm = len(MAPS)
     na = nm + len(EXTRA_MAPS) + len(MORE_MAPS)
-    for mi in (0, 2, 6, 8, nm, nm + 1, nm + 2, nm + 3, na, na + 1, na + 2):
+    for mi in (0, 2, 6, 8, nm, nm + 1, nm + 2, nm + 3, na, na + 1, na + 2, na + 3):
         for script in ("/", "/app", "/app/"):
             for scheme in (("http", "https") if script == "/" else ("https",)):
                 for strict, merge in [(True, True), (True, False), (False, True)]:
@@ -37,4 +37,11 @@ def obligations(tier, seed):
                                                "script": script, "scheme": scheme, "pct": True},
                                     "opts": {"budget_s": 600 if quick else 3000, "ctx": {"max_cp": 0x7E, "bv_ints": True}},
                                     "witness": n == 2 and mi == 0 and script == "/app"})
+    # the query string bound once (bind_to_environ style) instead of passed to match()
+    for mi in (nm + 1, na, na + 2):
+        for n in (range(0, 6) if quick else range(0, 8)):
+            out.append({"name": f"redirects[map={mi},query-at-bind,n={n}]", "body": "body_match",
+                        "params": {"mi": mi, "order": 0, "strict": True, "merge": True, "n": n, "method": "GET", "script": "/", "scheme": "http",
+                                   "pct": True, "qbind": True},
+                        "opts": {"budget_s": 600 if quick else 3000, "ctx": {"max_cp": 0x7E, "bv_ints": True}}})
     return out
